@@ -12,29 +12,29 @@ import (
 	"google.golang.org/grpc"
 )
 
-func Symbolic() bool                  { return true }
-func Bool() bool                      { return false }
-func Byte() byte                      { return 0 }
-func Uint16() uint16                  { return 0 }
-func Uint32() uint32                  { return 0 }
-func Int32() int32                    { return 0 }
-func Uint64() uint64                  { return 0 }
-func Int64() int64                    { return 0 }
-func Int() int                        { return 0 }
-func IntRange(lo, hi int64) int64     { return lo }
-func Bytes(n int) []byte              { return make([]byte, n) }
-func String(n int) string             { return "" }
+func Symbolic() bool                   { return true }
+func Bool() bool                       { return false }
+func Byte() byte                       { return 0 }
+func Uint16() uint16                   { return 0 }
+func Uint32() uint32                   { return 0 }
+func Int32() int32                     { return 0 }
+func Uint64() uint64                   { return 0 }
+func Int64() int64                     { return 0 }
+func Int() int                         { return 0 }
+func IntRange(lo, hi int64) int64      { return lo }
+func Bytes(n int) []byte               { return make([]byte, n) }
+func String(n int) string              { return "" }
 func Concretize(x int, lo, hi int) int { return x }
-func Choice(n int) int                { return 0 }
-func Assume(c bool)                   {}
-func Assert(c bool, label string)     {}
-func Cover(tag string)                {}
-func Note(s string)                   {}
-func Yield()                          {}
-func Preempt(on bool)                 {}
-func PermuteMaps(on bool)             {}
-func Panics(f func()) bool            { return false }
-func SameFunc(a, b interface{}) bool { return false }
+func Choice(n int) int                 { return 0 }
+func Assume(c bool)                    {}
+func Assert(c bool, label string)      {}
+func Cover(tag string)                 {}
+func Note(s string)                    {}
+func Yield()                           {}
+func Preempt(on bool)                  {}
+func PermuteMaps(on bool)              {}
+func Panics(f func()) bool             { return false }
+func SameFunc(a, b interface{}) bool   { return false }
 
 // NewContext returns a cancellable context (with a deadline if withDeadline)
 // that the harness controls with Cancel / Expire.
@@ -46,9 +46,9 @@ func Expire(ctx context.Context)                   {}
 // single-node in-memory NodeHost). StartShard runs the given state machine
 // (IConcurrentStateMachine or IOnDiskStateMachine) as shard id; firstIndex is
 // the log index its first proposal gets in the engine (natively the real log decides).
-func NewNodeHost() *dragonboat.NodeHost                                            { return nil }
+func NewNodeHost() *dragonboat.NodeHost                                                { return nil }
 func StartShard(nh *dragonboat.NodeHost, id uint64, firstIndex uint64, sm interface{}) {}
-func YieldAtStore(nh *dragonboat.NodeHost, on bool)                                {}
+func YieldAtStore(nh *dragonboat.NodeHost, on bool)                                    {}
 
 // Instant returns an arbitrary instant (not tied to the clock).
 func Instant() time.Time { return time.Time{} }
